@@ -85,7 +85,29 @@ def logistic(x, L=9.0, k=0.6, x0=4.5):
     return L / (1.0 + np.exp(-k * (x - x0)))
 
 
+def m_ab(x, a=1.0, b=0.7):
+    return a * x + b
+
+
+def m_ac(x, a=1.0, c=0.4):
+    return a * x + c * x * x / 10.0 + 0.2
+
+
+def m_bc(x, b=0.7, c=0.4):
+    return b + c * np.sqrt(x) * 2.0
+
+
+def make_idx_ad(n):
+    W = idx_design(n)
+
+    def idx_ad(a=1.0, d=0.9):
+        return a * W[1] * 2.0 + d * W[0] + 0.1
+
+    return idx_ad
+
+
 MODELS = {
+    "m_ab": m_ab, "m_ac": m_ac, "m_bc": m_bc,
     "lin": lin, "quad": quad, "expo": expo, "expc": expc, "normal": normal_density, "linoff": linoff, "quadoff": quadoff, "basis3": basis3,
     "powerlaw": powerlaw, "peak": peak, "sinus": sinus, "logistic": logistic,
 }
